@@ -62,7 +62,12 @@ def generate(R: Draw, tier: str) -> dict:
             desc = gs.describe_step(tr.steps[i])
             doc = P.plain(tr.docs[i])
             n = P.size_of(doc["c"], rs.leaf_types)
-            if how == "perturbed":
+            if desc["k"] == "around" and R.bool(0.5):
+                ro = gs.reopen_wrap_step(R, g, doc, desc)
+                if ro is not None:
+                    desc = ro
+                    how = how + "+reopened"
+            if how.startswith("perturbed"):
                 desc = gs.perturb_step(R, g, desc, n)
     elif how == "transplanted":
         other = g.doc(R, "small")
